@@ -35,7 +35,7 @@ func (cc *compCase) nextSite() int { cc.site++; return cc.site }
 // placeholders at the top level of the file
 func genComponentFile(c *core.Ctx, idx int) (compDef, []model.Stmt) {
 	r := c.Rng
-	def := compDef{name: []string{"components/card", "components/box.v2", "ui/panel", "components/list.min", "components/odd.tw", "ui/card~v2", "components/item~", ".partials/item", "components/.hidden", "ui/..card"}[idx%10]}
+	def := compDef{name: []string{"components/card", "components/box.v2", "ui/panel", "components/list.min", "components/odd.tw", "ui/card~v2", "components/item~", ".partials/item", "components/.hidden", "ui/..card", "components/sale-50%off", "ui/%d%s"}[idx%12]}
 	nArgs := r.Intn(3)
 	for a := 0; a < nArgs; a++ {
 		def.args = append(def.args, fmt.Sprintf("p%d", a))
@@ -376,6 +376,9 @@ func init() {
 						return
 					}
 					c.Count("faults_reported_at_load", 1)
+					if m := fmtMarker(err.Error()); m != "" {
+						c.Violation("fault-report-garbled", fmt.Sprintf("the load error holds %q (a message was used as a format string): %s", m, err.Error()), map[string]any{"files": describeFiles(files)})
+					}
 					if !strings.Contains(err.Error(), short) {
 						c.Violation(fmt.Sprintf("fault-unnamed:%d", fault), fmt.Sprintf("the load error for %s does not name the component %q: %s", names[fault], short, err.Error()), map[string]any{"files": describeFiles(files)})
 					}
